@@ -48,7 +48,7 @@ TEXT = {
     "C04": {
         "engine": "engine-G",
         "technique": "property-based testing with an address-identity oracle: snapshots before/after PrettySortBlocks / Optimize / SetShapeOrder / default Save over generated scene graphs, synthesised files and samples; invariants on survivors, reference targets, child multisets, canonical payloads, idempotence and reload",
-        "level_text": "Thousands of generated scene graphs (node trees, shapes of every kind, shared texture sets, collision sub-graphs with constraints and chains, controller chains, ordered/multibound nodes, loose blocks, permuted order, root not first), synthesised multi-block files and all samples x four operations (explicit shape orders incl. duplicate/missing names and wrong length): every clause of the statement is evaluated on object identities observed from outside the sorter.",
+        "level_text": "Thousands of generated scene graphs (node trees, shapes of every kind, shared texture sets, collision sub-graphs with constraints and chains, controller chains, ordered/multibound nodes, loose blocks, permuted order, root not first, a child node stored in front of a root that its collision object points back to), synthesised multi-block files and all samples x four operations (explicit shape orders incl. duplicate/missing names and wrong length): every clause of the statement is evaluated on object identities observed from outside the sorter.",
         "level_note": "Object address is block identity; bounds are recomputed before the snapshot; empty reference entries are ignored on both sides; payloads are taken from clones with reference fields masked (H3) and string indices replaced by text (H4).",
         "design_ref": "DESIGN.md section 3, C04",
     },
@@ -139,14 +139,14 @@ TEXT = {
     "C03": {
         "engine": "mininif",
         "technique": "property-based testing: metamorphic relabelling of block types to unknown names by an independent writer; byte-identity oracle on opaque payloads, positions, sizes and string indices read back by an independent parser",
-        "level_text": "Every sample x every singleton type and the full type set x {raw, default}, every registered type in size-table versions, and random subsets on synthesised files: opaque blocks must come back byte-identical at the same position and the string table may only grow. Exhaustive over the listed enumerations, sampled beyond.",
+        "level_text": "Every sample x every singleton type and the full type set x {raw, default}, every registered type in size-table versions, random subsets on synthesised files, and (a quarter of the cases) a 0-3 byte opaque block of an unregistered type appended at the end, in half of them as the file's only unknown block: opaque blocks must come back byte-identical at the same position and the string table may only grow. Exhaustive over the listed enumerations, sampled beyond.",
         "level_note": "Unknown types are simulated by relabelling known ones (payload untouched); MiniNif is the only reader of the output.",
         "design_ref": "DESIGN.md section 3, C03",
     },
     "C07": {
         "engine": "mininif",
         "technique": "property-based testing: independent header/table walker (MiniNif) over outputs of round trips and generated edit sequences; per-block size compared with independently re-serialised length",
-        "level_text": "Tens of thousands of saved files (all types x versions, samples, 0-4 generated edits, both save modes) are walked by a parser that trusts only the header tables; block count, type table, type indices, sizes, footer position, string uniqueness, max length and string-index ranges must all match the bytes.",
+        "level_text": "Tens of thousands of saved files (all types x versions, samples, files with unregistered block types, 0-4 generated edits, both save modes, sometimes written by an object that loaded and saved another file before) are walked by a parser that trusts only the header tables; block count, type table, type indices, sizes, footer position, string uniqueness, max length and string-index ranges must all match the bytes.",
         "level_note": "True block lengths come from re-serialising the reloaded blocks into private buffers; string-field offsets from hook H4.",
         "design_ref": "DESIGN.md section 3, C07",
     },
